@@ -860,6 +860,35 @@ Section Theorems.
     unfold Bip32.derive_coin_type_key, Bip32.derive_account_key. split; intros H;
       apply Z.ltb_lt in H; rewrite H; reflexivity.
   Qed.
+
+  (* every key the code derives under the guard can be serialised and parsed back *)
+  Lemma child_roundtrip parent x i c :
+    wf_key parent -> abs parent = Some x -> step_guard parent x i ->
+    length (ek_version parent) = 4%nat -> 0 <= i < 2 ^ 32 ->
+    child parent i = Ok c -> from_string (to_string c) = Ok (norm c).
+  Proof.
+    intros Hwf Habs Hg Hv Hi Hc. apply serialize_parse.
+    - exact (child_wf parent x i c Hwf Habs Hg Hc).
+    - exact (child_wf_ser parent i c Hv Hi Hc).
+  Qed.
+
+  Lemma master_roundtrip ver seed m :
+    length ver = 4%nat -> new_master ver seed = Ok m -> from_string (to_string m) = Ok m.
+  Proof.
+    intros Hv Hm. destruct (master_wf ver seed m Hm) as [Hwf H32].
+    rewrite (serialize_parse m Hwf (master_wf_ser ver seed m Hv Hm)).
+    rewrite norm_id; [reflexivity|]. intros _. exact H32.
+  Qed.
+
+  Lemma neuter_roundtrip k kp :
+    wf_key k -> wf_ser k -> ek_priv k = true -> neuter k = Ok kp -> from_string (to_string kp) = Ok kp.
+  Proof.
+    intros Hwf Hs Hp Hn. destruct (neuter_wf k kp Hwf Hs Hp Hn) as [H1 H2].
+    rewrite (serialize_parse kp H1 H2). rewrite norm_id; [reflexivity|].
+    unfold Bip32.neuter in Hn. rewrite Hp in Hn. cbn [negb] in Hn.
+    destruct (hd_priv_to_pub (ek_version k)); [|discriminate].
+    injection Hn as Hk. subst kp. cbn [ek_priv]. discriminate.
+  Qed.
 End Theorems.
 
 (* ================================================================== Part C *)
